@@ -39,10 +39,12 @@ L_LIST = {"parse_range_list": [dict(loop_id="0", assigns="cs->i, cs->ok_pos, g_d
     symbol_map="cs,parse_range_list::cs;il,parse_range_list::il")]}
 NS = "(n_specified_cpus <= 1024 && 0 <= i && (i <= n_specified_cpus || n_specified_cpus < 0))"
 L_AVAIL = {"myth_get_available_cpus": [
-    dict(loop_id="0", assigns="i, __CPROVER_object_whole(myth_cpu_list)", invariants=NS, decreases="n_specified_cpus - i",
+    dict(loop_id="0", assigns="i, __CPROVER_object_whole(myth_cpu_list)",
+         invariants=NS + " && ((0 <= g_c && g_c < i) ==> myth_cpu_list[g_c] == g_c)", decreases="n_specified_cpus - i",
          symbol_map="i,myth_get_available_cpus::1::i;n_specified_cpus,myth_get_available_cpus::1::n_specified_cpus"),
     dict(loop_id="1", assigns="i, n_available_cpus, __CPROVER_object_whole(worker_cpu)",
-         invariants=NS + " && 0 <= n_available_cpus && n_available_cpus <= i",
+         invariants=NS + " && 0 <= n_available_cpus && n_available_cpus <= i"
+                    " && ((0 <= g_c && g_c < i && g_c_in == 1 && g_c < n_specified_cpus && myth_cpu_list[g_c] == g_c) ==> n_available_cpus >= 1)",
          decreases="n_specified_cpus - i",
          symbol_map="i,myth_get_available_cpus::1::i;n_specified_cpus,myth_get_available_cpus::1::n_specified_cpus")]}
 # without --conversion-check: (size_t)myth_cpu_list[i] inside glibc's CPU_ISSET is a defined conversion whose result the macro range-checks
@@ -67,21 +69,8 @@ L_FINI["myth_fini_body"] = [
          symbol_map="i,myth_fini_body::1::i"),
     dict(loop_id="1", assigns="i, g_joined", invariants="1 <= i && i <= g_nw && g_attr.n_workers == g_nw && g_joined == i - 1 && g_envs == g_pool",
          decreases="g_nw - i", symbol_map="i,myth_fini_body::1::i")]
-HERE = "(0 <= g_worker_rank && g_worker_rank < g_nw && g_envs == g_pool && g_envs_sz == g_nw && g_attr.n_workers == g_nw)"
-L_EXIT = {
-  "myth_startpoint_exit_ex_body": [dict(loop_id="0",
-    assigns="env, g_worker_rank, g_passed, g_passed_rank, g_ctx_saved, g_switched, g_tidx, TH.env, POOL",
-    invariants=HERE + " && env == &g_pool[g_worker_rank] && env->rank == g_worker_rank && env->this_thread == &TH && TH.env == env"
-               " && g_passed == 0 && g_ctx_saved == 0 && 0 <= rank && rank < g_nw && (g_switched == 0 || g_switched == 1)"
-               " && (g_switched == 0 ==> (g_tidx == rank && g_worker_rank == __CPROVER_loop_entry(g_worker_rank)))",
-    symbol_map="env,myth_startpoint_exit_ex_body::1::env;rank,myth_startpoint_exit_ex_body::rank")],
-  "myth_startpoint_exit_ex_1": [dict(loop_id="0", assigns="target, TH.env, g_passed, g_passed_rank, g_tidx",
-    invariants="g_passed == 0 && g_ctx_saved == 1 && th == &TH && 0 <= g_tidx && g_tidx < g_nw && g_envs == g_pool && g_attr.n_workers == g_nw"
-               " && TH.env == target && (target == &g_pool[g_tidx] || target == &g_pool[0])",
-    symbol_map="target,myth_startpoint_exit_ex_1::1::target;th,myth_startpoint_exit_ex_1::1::th")],
-  "myth_notify_workers_exit": [dict(loop_id="0", assigns="i, POOL",
-    invariants="0 <= i && i <= g_nw && g_attr.n_workers == g_nw && g_envs == g_pool && 0 <= g_k && (g_k < i ==> g_pool[g_k].exit_flag != 0)",
-    decreases="g_nw - i", symbol_map="i,myth_notify_workers_exit::1::i")]}
+# descriptor pool: malloc'ed, any worker count up to 2^20 (jobs that do not havoc the pool); otherwise a static array
+BIGPOOL = ["-DPOOL_MALLOC=1", "-DNW_MAX=1048576"]
 ENV3 = ["myth_verif_env_step/myth_verif_env_step", "real_sched_yield/yield_contract"]
 STDIO = ["fputc/fputc_contract"]
 JOBS = [
@@ -134,11 +123,12 @@ JOBS = [
                "myth_internal_barrier_init/barrier_init_contract", "myth_malloc/malloc_contract",
                "myth_worker_key_init/worker_key_init_contract", "real_pthread_create/pthread_create_contract",
                "real_pthread_self/pthread_self_contract", "myth_worker_thread_fn/worker_thread_fn_contract"],
-      fuc=["myth_init_ex_body_really"], timeout=200),
+      defines=["-DNW_MAX=1024"], fuc=["myth_init_ex_body_really"], timeout=200,
+      note="worker counts 1..1024 (static descriptor array; the property excludes thousands of workers); the creation loop is closed by a loop contract"),
   Job("c15.fini.body", TU3, "h_fini", loops=L_FINI, loop_counts={"myth_init_once_ctl_wait": 1, "myth_fini_body": 2},
       replace=ENV3 + ["myth_startpoint_exit_ex_body/exit_ex_contract", "real_pthread_join/pthread_join_contract",
                       "myth_fini_body_really/fini_really_contract"],
-      fuc=["myth_fini_body", "myth_init_once_ctl_wait", "myth_get_current_env"], timeout=200),
+      defines=BIGPOOL, fuc=["myth_fini_body", "myth_init_once_ctl_wait", "myth_get_current_env"], timeout=200),
   Job("c15.fini.exit.bounded", TU3, "h_exit_ex", kind="bounded",
       replace=["verif_ctx_save/ctx_save_contract", "verif_suspend_resume/suspend_resume_contract", "myth_queue_trypass/trypass_contract",
                "myth_random/random_contract", "myth_cleanup_worker/cleanup_worker_contract"],
@@ -146,17 +136,79 @@ JOBS = [
       defines=["-DMAX_REFUSALS=2", "-DNW_MAX=3"],
       fuc=["myth_startpoint_exit_ex_body", "myth_startpoint_exit_ex_1", "myth_notify_workers_exit", "myth_env_get_randomly",
            "myth_get_current_env"], timeout=200,
-      note="bounded: at most 2 refused hand-overs of the main thread (so at most 3 migration hops), at most 64 workers (static descriptor pool); "
-           "loop contracts would havoc descriptor pointers that are dereferenced afterwards, which CBMC's symbolic execution does not survive"),
+      note="bounded: 1..3 workers (static descriptor array), the main thread on any of them, at most 2 refused hand-overs of the main thread "
+           "(hence at most 3 migration hops), all loops unwound with unwinding assertions; loop contracts would havoc descriptor pointers "
+           "that are dereferenced afterwards, which CBMC's symbolic execution does not survive"),
+] + [
+  Job("c15.setup_worker.rank%d.bounded" % rk, TU3, "h_setup_worker", kind="bounded", defines=["-DNW_MAX=4", "-DSETUP_RANK=%d" % rk],
+      replace=["myth_flmalloc_init_worker/flmalloc_init_worker_contract", "real_pthread_setspecific/setspecific_contract", "time/time_contract",
+               "myth_queue_init/queue_init_contract", "myth_queue_clear/queue_clear_contract",
+               "myth_internal_barrier_wait/barrier_wait_contract", "sigemptyset/sigemptyset_contract", "sigaddset/sigaddset_contract",
+               "real_pthread_sigmask/sigmask_contract", "sigaction/sigaction_contract"],
+      fuc=["myth_setup_worker", "myth_set_current_env", "myth_get_current_env", "myth_set_worker_key", "myth_random_init", "myth_freelist_init"], timeout=200,
+      note="bounded: rank %d of a 4-descriptor pool (constant index; a symbolic index into the 2560-byte descriptors does not go through the solver); "
+           "the body treats ranks uniformly except for the rank != 0 signal-mask branch" % rk)
+  for rk in (0, 1, 3)
+] + [
   Job("c15.worker_num", TU3, "h_worker_num", replace=ENV3 + ["myth_init_ex_body_really/really_contract"],
       loops=L_WAIT, loop_counts={"myth_init_once_ctl_wait": 1},
-      fuc=["myth_get_worker_num_body", "myth_get_num_workers_body", "myth_get_current_env", "myth_ensure_init"], timeout=200),
+      defines=BIGPOOL, fuc=["myth_get_worker_num_body", "myth_get_num_workers_body", "myth_get_current_env", "myth_ensure_init"], timeout=200),
 ]
+# Mutations in selftest/C15 (all must be CAUGHT).  NOTE: while F5a/F5b are unrepaired in /repo every mutation is trivially
+# "caught" by those two findings; each patch was therefore also run against a scratch copy with F5a/F5b repaired
+# (assert on '\\0' instead of '\\n'; `int sz`), where each produces NEW failed obligations of its own:
+#   cpulist_add_off_by_one        -> int_list_add assigns/bounds + "cell behind the capacity untouched"
+#   cpulist_malformed_not_rejected-> myth_parse_cpu_list_contract.postcondition (a list is returned only without diagnostic)
+#   cpulist_parse_int_no_advance  -> parse_int loop_decreases (hang on a digit)
+#   workers_zero_accepted         -> default workers >= 1 / spec
+#   init_election_not_atomic      -> really_contract.precondition (caller not elected by a CAS), once-obligations
+#   init_loser_does_not_wait      -> "returns only when the state is initialized"
+#   fini_state_not_reset          -> "state is uninit again"
+#   fini_join_skips_last_worker   -> fini_really_contract.precondition (release before all workers joined), join count
+# Tried and also caught on the repaired copy (not kept, limit of 8): stride ignored (x += 1), junk accepted, publication before the
+# real initialisation, nw threads created, g_envs_sz off by one, explicit attributes ignored, -1 from the parser not reset,
+# exit flags not raised for worker 0, no migration back to worker 0, exit flag not cleared by myth_setup_worker.
 META = {
  "level": "proof",
- "level_text": "",
- "level_note": "",
- "trusted_base": [],
- "explanation": "",
- "assumptions": [],
+ "level_text": "Contracts on the real CPU-list parser (every NUL-terminated string up to INT_MAX-3 bytes, every output capacity up to 2^24; "
+               "all loops closed by loop contracts with decreases clauses), on its consumer, on the environment defaults of the global "
+               "attributes (every getenv/atoi outcome), on the init-once state machine (rely/guarantee on g_myth_init_state, any "
+               "interference), on the real initialisation (worker counts 1..1024, creation loop by loop contract), on myth_fini_body "
+               "(up to 2^20 workers) and on myth_get_worker_num/_num_workers.  The migration back to worker 0 "
+               "(myth_startpoint_exit_ex_body) and myth_setup_worker are bounded stand-ins and are not counted as proved.",
+ "level_note": "Trusted: cbmc 6.11 (dfcc, loop contracts, SAT), gcc -E, CBMC's isdigit model, SC interleaving of the atomic steps on the init word, "
+               "the paper step from the per-caller obligations to 'exactly one initialiser'.  Not decided: that OS threads really stop "
+               "(pthread_join is a contract), liveness of the wait/retry loops, CPU binding effects, whole-process behaviour "
+               "(exit status under each environment).  On the unrepaired tree the check FAILS with F5a (next_char assert reachable) and "
+               "F5b (negative default sizes); the int-overflow obligations of the parser need the benign-list lines given to the lead.",
+ "trusted_base": ["cbmc 6.11.0 (goto-cc, goto-instrument --dfcc with function and loop contracts, SAT back end)",
+                  "gcc -E preprocessing of the real sources (-D__NO_CTYPE for the parser unit so that isdigit is a function; CBMC's model of isdigit)",
+                  "rely/guarantee rule (paper step) for g_myth_init_state",
+                  "the contracts assumed for libc / pthread / OS calls listed under assumptions"],
+ "explanation": "Part 1 (c15_cpulist.c): int_list_add, parse_error, parse_int, parse_range, parse_range_list, myth_parse_cpu_list are each "
+                "enforced against a contract with the lower level replaced by its proved contract: no read past the terminator, no write "
+                "outside a[0..n), termination, no reachable assert (F5a), accepted <=> whole string consumed and made of grammar "
+                "characters, rejected => -1 and parse_error; documented range semantics (docs/bind.txt) in the loop invariant of "
+                "parse_range; myth_get_available_cpus treats -1 as unset and stays in bounds.  Part 2 (c15_attr.c): the five default "
+                "functions, globalattr_init and the setters/getters against the statement, over a ghost environment (F5b).  Part 3 "
+                "(c15_init.c): CAS-elected single initialiser with waiting losers, the real initialisation creates exactly nw-1 "
+                "threads after the global structures exist, finalisation joins nw-1 threads after raising the exit flags, releases "
+                "afterwards and resets the state; worker index within [0, workers).",
+ "assumptions": [
+   "environment strings are shorter than 2^31-3 bytes (int index of the parser; Linux limits one environment string to 128 KiB); output capacity <= 2^24 (the library uses 1024)",
+   "numbers in MYTH_CPU_LIST that overflow int (x*10+d, a+1, x+=c) are well-formed-but-unusable requests outside the property: the signed-overflow obligations fail and are to be put on the benign list; all other obligations are proved under CBMC's wrap-around semantics for those inputs, value facts (docs/bind.txt) only for a >= 0, c >= 0, b + c <= INT_MAX",
+   "getenv, sysconf, sched_getaffinity, getpid, fputc, real_pthread_self, real_pthread_setaffinity_np: assumed contracts (return values arbitrary within their type; sysconf(_SC_NPROCESSORS_ONLN) in {-1} u [1, 1024] in the consumer job, >= 1 for the worker default)",
+   "fprintf (variadic) is CBMC's built-in model: the diagnostics 'malformed MYTH_CPU_LIST ignored' etc. are not observed; the parser's own diagnostic (parse_error) is",
+   "--conversion-check is off for jobs cpulist.consumer, attr.flags, attr.init, attr.setget: (size_t) of a negative int inside glibc's CPU_ISSET (range-checked by the macro) and the int -> size_t -> int round trip of MYTH_BIND_WORKERS / MYTH_CHILD_FIRST are defined conversions (gcc: modular)",
+   "myth_bind_worker is checked for -1 or any non-negative CPU number (a negative number can only come from int overflow in the parser)",
+   "atoi: assumed to return some int for every string (0 for empty / non-numeric); getenv/atoi are harness stubs over a ghost environment of the six documented variables; the stub of getenv compares names character by character",
+   "init word: sequentially consistent interleaving of atomic steps; no finalisation runs concurrently with an initialisation (the environment never moves the word from initialized back to uninit); termination of myth_init_once_ctl_wait is not decided",
+   "myth_init_ex_body_really: callees myth_get_available_cpus, myth_flmalloc_init, myth_tls_init, myth_internal_barrier_init, myth_malloc, myth_worker_key_init, real_pthread_create, real_pthread_self, myth_worker_thread_fn(0) are contracts that record call order and arguments; the store of the new thread id by pthread_create is not modelled; worker counts 1..1024 (static descriptor array)",
+   "myth_globalattr_init_body is used by contract in the really job (g_attr.n_workers = the environment's request >= 1, proved in c15.attr.init)",
+   "myth_fini_body: myth_startpoint_exit_ex_body, real_pthread_join, myth_fini_body_really are contracts (join = 'the worker has stopped' is assumed of the OS); the exit_flag stores of myth_startpoint_exit_ex_body are not modelled in that job (never read there); descriptor 0 has rank 0 (established by myth_setup_worker); up to 2^20 workers",
+   "bounded: myth_startpoint_exit_ex_body for 1..3 workers and at most 2 refused hand-overs; context switch = save, real callback, suspend/resume contract (resumed on the worker whose queue accepted the thread; the main thread is never stolen; this_thread of every descriptor pre-set to the main thread); myth_queue_trypass, myth_random (range [min,max) assumed; floating point not analysed), myth_cleanup_worker are contracts",
+   "bounded: myth_setup_worker for ranks 0, 1, 3 of a 4-descriptor pool; allocator, run queue, barrier, signal and pthread-key calls are contracts recording order",
+   "myth_get_worker_num_body: 'rank == index' of the current descriptor is the postcondition of myth_setup_worker (bounded job) and is assumed here for an arbitrary worker of up to 2^20",
+   "not decided: that worker OS threads really terminate, exit status of whole processes, CPU binding effects, memory-model effects",
+ ],
 }
